@@ -5,6 +5,7 @@ use super::{
     search_orientation::SearchOrientation,
 };
 use crate::app::compass::response::response_persistence_policy::ResponsePersistencePolicy;
+use crate::plugin::input::input_json_extensions::InputJsonExtensions;
 use crate::{
     app::{
         compass::{
@@ -390,9 +391,18 @@ impl CompassApp {
             .flatten()
             .flatten()
             .collect();
+        // a query whose weight estimate cannot be read is answered with an error response
+        // instead of failing the whole batch
+        let (processed_inputs, weight_errors): (Vec<Value>, Vec<Value>) = processed_inputs
+            .into_iter()
+            .partition_map(|mut q| match q.get_query_weight_estimate() {
+                Ok(_) => Either::Left(q),
+                Err(e) => Either::Right(in_ops::package_error(&mut q, e)),
+            });
         let load_balanced_inputs =
             ops::apply_load_balancing_policy(&processed_inputs, parallelism, 1.0)?;
-        let error_inputs: Vec<Value> = error_inputs_nested.into_iter().flatten().collect();
+        let mut error_inputs: Vec<Value> = error_inputs_nested.into_iter().flatten().collect();
+        error_inputs.extend(weight_errors);
         if load_balanced_inputs.is_empty() {
             return Ok(error_inputs);
         }
